@@ -27,6 +27,26 @@ STRENGTHEN = {
  "C18-r2m2": "observed reader calls on in-memory native datasets with random optional variables added to C18 histories (pristine-process oracle)",
  "C02-r2m2": "objects that first held another spectrum, were queried, and were then overwritten in place added to C02",
  "C04-r2m2": "Python layer in front of the C routine (np_ptm3) driven with Fortran-ordered / transposed / strided inputs and compared with the label regions (C04)",
+ "C02-r3m1": "fp(smooth=False) added to the C02 comparison and to the no-peak NaN oracle",
+ "C02-r3m2": "the smooth flag is passed as callers pass it (numpy booleans / integers as well as the literals) in C02",
+ "C03-r3m2": "calm-sea magnitudes (exact power-of-two scaling down to ranges of 1e-9..1e-6) added to the C03 generator",
+ "C04-r3m1": "C text of specpart.c pinned by digest theorems (C04ctext): on a changed text the check runs its thorough-tier enumeration (12-cell grids) and reports the failing grid; int_minval also compared with its specification function-by-function",
+ "C04-r3m2": "tiny-magnitude float grids added to the C04 oracle run (and the C-text digest escalation)",
+ "C05-r3m1": "descending-and-rotated storage (orientation and rotation together) added to the C05 variants",
+ "C06-r3m1": "per-worker memory limit: the garbage partition count made a worker allocate 30 GB; now a MemoryError on a kB-sized case is a reported failure",
+ "C06-r3m2": "forcing arrays stored with their dimensions in another order than efth's (equal sizes) added to C06",
+ "C07-r3m1": "degenerate members (all-zero, single frequency bin, single bin) and fallback-branch statistics added to the C07 worlds",
+ "C07-r3m2": "hp01 with and without wind added to the C07 catalogue",
+ "C08-r3m1": "integer-typed direction coordinates added to the C08 sources (and to one generated object in six everywhere)",
+ "C08-r3m2": "the legacy numpy regridder utils.interp_spec is now covered by C08 (identity, nodes, linear, zero outside, non-negative)",
+ "C09-r3m1": "same object asked for the same band statistics while holding other values, then overwritten in place (C09)",
+ "C10-r3m1": "S and kS as one object scaled in place after a first round of statistics (C10)",
+ "C12-r3m2": "ERA5 native coordinates carrying physical values (Hz, going-to degrees) instead of bin numbers added to C12",
+ "C17-r3m2": "bbox selection on a [0,360] dataset beyond 180 with the box in [-180,180] and adjacent stations added to the C17 table",
+ "C18-r3m1": "flat non-zero spectra and foreign watershed calls of exactly the object's shape added to C18 histories (C06: constant members)",
+ "C19-r3m1": "ptm1_track is run with non-default thresholds in the quick tier too (C19)",
+ "C20-r3m1": "spy on the native entry point: every array handed to specpart.partition must be a C-contiguous float32 block; float32/float64 views with negative, non-unit strides and transposed storage are fed through ptm1/2/3/hp01 (C20); float32 non-contiguous variants in C05",
+ "C20-r3m2": "worker death (exit() inside native code) is detected at once by the process pool and reported as a failure instead of a hang",
  "C20-m1": "whole-map timeout in pmap: a hang inside native code is reported as a termination failure and the native sub-check still runs (C20)",
 }
 MANUAL_LATER = {  # re-runs done directly with tools/seeded.py (not in a batch log)
